@@ -10,10 +10,20 @@ import (
 
 	"ergo.services/ergo/act"
 	"ergo.services/ergo/gen"
+	"ergo.services/ergo/net/edf"
 	"pgregory.net/rapid"
 
 	"verif/harness/kit"
+	"verif/harness/kit/netkit"
 )
+
+func init() {
+	for _, v := range []any{Req{}, Rep{}} {
+		if err := edf.RegisterTypeOf(v); err != nil && err != gen.ErrTaken {
+			panic(err)
+		}
+	}
+}
 
 // reaction of the callee to one request
 const (
@@ -250,7 +260,7 @@ func (o callOp) String() string {
 }
 
 var recCorr = kit.NewRecorder("C07", "correlation",
-	"1-3 caller processes run scripts of 2-6 calls (1 s timeout) concurrently against 1-2 callee actors (by pid, name, alias), a meta-process callee and a pool of 2-3 worker actors that forwards requests (a worker that terminates is replaced when its turn comes again); per request the callee's generated reaction is one of {return value, explicit SendResponse, reply later from itself, reply from a third process, SendResponseError, reply twice, reply with the reference of an earlier completed request first, reply with another caller's outstanding reference addressed to this caller first, reply only when the caller's next request arrives (= late reply while the next call waits, before or after the proper reply), never, terminate without reply}; afterwards every withheld reply is flushed and each caller makes one more call per live callee; "+
+	"1-3 caller processes (on the callees' node, or in one of four cases on another node connected to it) run scripts of 2-6 calls (1 s timeout, 2 s across nodes) concurrently against 1-2 callee actors (by pid, name, alias), a meta-process callee and a pool of 2-3 worker actors that forwards requests (a worker that terminates is replaced when its turn comes again); per request the callee's generated reaction is one of {return value, explicit SendResponse, reply later from itself, reply from a third process, SendResponseError, reply twice, reply with the reference of an earlier completed request first, reply with another caller's outstanding reference addressed to this caller first, reply only when the caller's next request arrives (= late reply while the next call waits, before or after the proper reply), never, terminate without reply}; afterwards every withheld reply is flushed and each caller makes one more call per live callee; "+
 		"oracle: a call returns the reply/error carrying ITS OWN id or a timeout/delivery error, never another id; modes that reply in time must return that reply (callee never terminated in the case), withheld ones must time out; each request id is seen by a callee at most once, exactly once when the call was accepted; "+
 		"non-trivial = a stale reply (late, duplicate, foreign or old reference) was handed to a caller that made a later call; distinct by scripts")
 
@@ -260,6 +270,11 @@ func TestCorrelation(t *testing.T) {
 		ncallees := rapid.IntRange(1, 2).Draw(t, "callees")
 		nextID := 0
 		scripts := make([][]callOp, ncallers)
+		remote := rapid.IntRange(0, 3).Draw(t, "remote") == 0
+		tmo := 1
+		if remote {
+			tmo = 2
+		}
 		dies, metaDies, poolDies := false, false, false
 		poolSize := rapid.IntRange(2, 3).Draw(t, "pool_size")
 		for c := range scripts {
@@ -290,11 +305,14 @@ func TestCorrelation(t *testing.T) {
 						slowBudget--
 					}
 				}
+				if remote && mode == mFlood {
+					mode = mNever
+				}
 				if o.Target == 3 {
 					// a worker that dies is replaced by the pool when its turn comes again
 					o.Addr %= 2
-					if mode == mFlood {
-						mode = mNever
+					if mode == mFlood || mode == mNever {
+						mode = mDie // (the worker that keeps silent for good)
 					}
 					if mode == mDie {
 						poolDies = true
@@ -322,11 +340,29 @@ func TestCorrelation(t *testing.T) {
 			}
 		}
 
-		node, err := kit.StartLocalNode()
-		if err != nil {
-			t.Fatalf("start node: %v", err)
+		// the callees' node; the callers live on the same node or on another one connected to it
+		var node, cnode gen.Node
+		var err error
+		if remote {
+			hub := netkit.NewHub()
+			if cnode, err = netkit.StartNetNode(hub, netkit.NetNodeName("c07a"), "cookie"); err != nil {
+				t.Fatalf("start node: %v", err)
+			}
+			defer cnode.StopForce()
+			if node, err = netkit.StartNetNode(hub, netkit.NetNodeName("c07b"), "cookie"); err != nil {
+				t.Fatalf("start node: %v", err)
+			}
+			defer node.StopForce()
+			if _, err := cnode.Network().GetNode(node.Name()); err != nil {
+				t.Fatalf("connect: %v", err)
+			}
+		} else {
+			if node, err = kit.StartLocalNode(); err != nil {
+				t.Fatalf("start node: %v", err)
+			}
+			defer node.StopForce()
+			cnode = node
 		}
-		defer node.StopForce()
 		probe := kit.NewProbe()
 		helper, err := node.Spawn(kit.Factory(&kit.ActorConfig{Label: "helper", Probe: probe, Quiet: true,
 			OnMessage: func(a *kit.Actor, from gen.PID, msg any) (bool, error) {
@@ -398,12 +434,18 @@ func TestCorrelation(t *testing.T) {
 			}
 			if o.Target == 3 {
 				if o.Addr == 1 {
+					if remote {
+						return gen.ProcessID{Name: poolName, Node: node.Name()}
+					}
 					return poolName
 				}
 				return poolPID
 			}
 			switch o.Addr {
 			case 1:
+				if remote {
+					return gen.ProcessID{Name: calleeName[o.Target], Node: node.Name()}
+				}
 				return calleeName[o.Target]
 			case 2:
 				return calleeAlias[o.Target]
@@ -412,7 +454,7 @@ func TestCorrelation(t *testing.T) {
 		}
 		callers := make([]gen.PID, ncallers)
 		for c := range callers {
-			callers[c], err = node.Spawn(kit.Factory(&kit.ActorConfig{Label: fmt.Sprintf("caller%d", c), Probe: probe, Quiet: true}), gen.ProcessOptions{})
+			callers[c], err = cnode.Spawn(kit.Factory(&kit.ActorConfig{Label: fmt.Sprintf("caller%d", c), Probe: probe, Quiet: true}), gen.ProcessOptions{})
 			if err != nil {
 				t.Fatalf("spawn caller: %v", err)
 			}
@@ -420,12 +462,12 @@ func TestCorrelation(t *testing.T) {
 		results := make([][]callResult, ncallers)
 		run := func(c int, ops []callOp) {
 			done := make(chan struct{})
-			if err := node.Send(callers[c], kit.Do{F: func(a *kit.Actor) {
+			if err := cnode.Send(callers[c], kit.Do{F: func(a *kit.Actor) {
 				for _, o := range ops {
 					for i := 0; o.Burn > 0 && i < (1<<o.Burn)-1; i++ {
 						a.Node().MakeRef()
 					}
-					v, err := a.CallWithTimeout(target(o), o.Req, 1)
+					v, err := a.CallWithTimeout(target(o), o.Req, tmo)
 					results[c] = append(results[c], callResult{op: o, value: v, err: err})
 					if o.Req.Mode == mFlood {
 						time.Sleep(200 * time.Millisecond) // the flooder outlasts the timeout by design; let it finish
@@ -566,7 +608,7 @@ func TestCorrelation(t *testing.T) {
 			}
 			sb.WriteString(" | ")
 		}
-		labels := []string{fmt.Sprintf("callers=%d", ncallers)}
+		labels := []string{fmt.Sprintf("callers=%d", ncallers), fmt.Sprintf("remote=%v", remote)}
 		if staleOut > 0 {
 			labels = append(labels, "stale-reply-handed-over")
 		}
@@ -576,6 +618,6 @@ func TestCorrelation(t *testing.T) {
 		if poolDies {
 			labels = append(labels, "pool-worker-died")
 		}
-		recCorr.Case(nontrivial && staleOut > 0, sb.String(), labels...)
+		recCorr.Case(nontrivial && staleOut > 0, fmt.Sprintf("remote=%v ", remote)+sb.String(), labels...)
 	})
 }
